@@ -132,7 +132,7 @@ func NewWordList(list []string) (*WordList, error) {
 func (r WLRecipe) Generate() (*Password, error) {
 	p := &Password{}
 
-	if r.Size() == 0 {
+	if r.list == nil || r.Size() == 0 {
 		return nil, fmt.Errorf("wordlist generator must be set up before being used")
 	}
 	if r.Length < 1 {
